@@ -247,3 +247,29 @@ def _(self):
     ensures(0 <= self.number_of_bits - old(self.number_of_bits) and self.number_of_bits - old(self.number_of_bits) < 8)
     ensures(self.value == old(self.value) * pow2(self.number_of_bits - old(self.number_of_bits)))
     ensures(self.chunks_number_of_bits == old(self.chunks_number_of_bits))
+
+
+@contract("Decoder.read_bits", props=["C05", "C16", "C08"])
+def _(self, number_of_bits: Nat) -> Bytes:
+    # checked read of n bits, returned left-aligned in ceil(n/8) octets.  The out-of-data check, the state update
+    # and the frame are proved; that int(v, 2)/hex/unhexlify on the sentinel-prefixed, zero-padded string v cannot
+    # fail and yields ceil(n/8) octets is an assumption (string-level reasoning the solvers did not discharge).
+    raises_iff(OutOfDataError, number_of_bits > self.number_of_bits,
+               ensures=[self.number_of_bits == old(self.number_of_bits), self.value == old(self.value)])
+    at_stmt("return binascii.unhexlify(hex(int(value, 2))[4:].rstrip('L'))",
+            assume=("builtins int(v,2)/hex/unhexlify on the sentinel-prefixed zero-padded bit string of Decoder.read_bits "
+                    "cannot fail and give ceil(n/8) octets (string-level fact, not discharged)",
+                    is_bitstr(value) and len(value) > 0 and hex80_even(bits_val(value))
+                    and len(hex80_bytes(bits_val(value))) == (number_of_bits + 7) // 8))
+    assigns(self)
+    ensures(self.number_of_bits == old(self.number_of_bits) - number_of_bits and self.value == old(self.value))
+    ensures(len(result) == (number_of_bits + 7) // 8)
+
+
+@contract("Decoder.read_bytes", props=["C05", "C16", "C08"])
+def _(self, number_of_bytes: Nat) -> Bytes:
+    raises_iff(OutOfDataError, 8 * number_of_bytes > self.number_of_bits,
+               ensures=[self.number_of_bits == old(self.number_of_bits), self.value == old(self.value)])
+    assigns(self)
+    ensures(self.number_of_bits == old(self.number_of_bits) - 8 * number_of_bytes and self.value == old(self.value))
+    ensures(len(result) == number_of_bytes)
